@@ -111,7 +111,7 @@ def repo_full_strings():
 
 def validate(check, records):
     slim = [{k: r[k] for k in TRACE_FIELDS if k in r} for r in records]
-    verdicts, stats = tlc.validate("ResolveTrace", slim, batch=max(1, min(60, (len(slim) + common.NCPU - 1) // common.NCPU)),
+    verdicts, stats = tlc.validate("ResolveTrace", slim, batch=max(1, min(1500, (len(slim) + common.NCPU - 1) // common.NCPU)),
                                    xmx="3g", timeout=1800)
     check.add_tv(stats)
     return verdicts
@@ -184,3 +184,326 @@ def enumerate_configs(check, tier):
         seen.add(key)
         out.append((p["base"], L[p["lib"] - 1], p["legacy"]))
     return out
+
+
+# ----------------------------------------------------------------------------------------------
+# cut-and-resolve configurations (C01, C10)
+# ----------------------------------------------------------------------------------------------
+def cut_record(g, cfg, legacy=True):
+    from .. import molgen
+    text = render.render_graph_tokens(cfg["base"]) + ".{" + ",".join(
+        "#" + n + "=" + render.render_fragment_tokens(t) for n, t in cfg["frags"]) + "}"
+    obs = project.run_resolve(text, last_all_atom=True, legacy=legacy)
+    step = obs["steps"][0] if obs["steps"] else None
+    ref, pos = molgen.reference_record(g, cfg["member"])
+    wit = []
+    if step is not None:
+        ok = True
+        for n in step["fine"]["nodes"]:
+            if n["isH"] and not n["map"]:
+                continue
+            targets = {cfg["posmap"].get((m[0], m[1])) for m in n["map"]}
+            if len(targets) != 1 or None in targets:
+                ok = False
+                break
+            wit.append([n["id"], pos[targets.pop()]])
+        if not ok:
+            wit = vf2_witness(step["fine"], ref)
+    return {"mode": "resolve", "text": text, "level": 0, "basekind": "tokens", "base": cfg["base"],
+            "basegraph": {"names": [], "edges": []}, "frags": cfg["frags"], "fragcoarse": False,
+            "legacy": legacy, "allAtom": True, "obs": slim_obs(step, obs["outcome"]),
+            "ref": ref, "wit": wit, "nshared": cfg["nshared"], "ncuts": cfg["ncuts"], "nblocks": cfg["nblocks"]}
+
+
+def vf2_witness(fine, ref):
+    import networkx as nx
+    from networkx.algorithms import isomorphism as iso
+    a = nx.Graph()
+    for n in fine["nodes"]:
+        if not n["isH"]:
+            a.add_node(n["id"], lab=(n["el"], n["chg"]))
+    for e in fine["edges"]:
+        if e[0] in a and e[1] in a:
+            a.add_edge(e[0], e[1], o=e[2])
+    b = nx.Graph()
+    for i, at in enumerate(ref["atoms"]):
+        b.add_node(i + 1, lab=(at[0], at[1]))
+    for x, y, o in ref["bonds"]:
+        b.add_edge(x, y, o=o)
+    gm = iso.GraphMatcher(a, b, node_match=lambda x, y: x["lab"] == y["lab"], edge_match=lambda x, y: x["o"] == y["o"])
+    if gm.is_isomorphic():
+        return [[k, v] for k, v in sorted(gm.mapping.items())]
+    return []
+
+
+def cut_corpus(rng, n_random, tier, share=0.0, kinds=("$", "<>")):
+    """(molecule, config) pairs: catalogue molecules x partitions x renderings, and random molecules."""
+    from .. import molgen
+    out = []
+    mols = []
+    for smi in molgen.CATALOGUE:
+        try:
+            mols.append((smi, molgen.read_reference(smi)))
+        except Exception:
+            continue
+    per = 2 if tier == "quick" else 12
+    for smi, g in mols:
+        n = g.number_of_nodes()
+        if n <= 4:
+            parts = list(molgen.all_partitions(g, 4))
+            rng.shuffle(parts)
+            parts = parts[: per * 3]
+        else:
+            parts = [molgen.random_partition(g, rng, rng.randint(1, min(5, n))) for _ in range(per)]
+        for block in parts:
+            cfg = molgen.make_cut_config(g, block, rng, kinds=kinds, share=share)
+            if cfg is not None:
+                out.append((g, cfg, smi))
+    for i in range(n_random):
+        g = molgen.random_molecule(rng, rng.randint(2, 12))
+        if not perceived_ok(g):
+            continue
+        block = molgen.random_partition(g, rng, rng.randint(1, min(5, g.number_of_nodes())))
+        cfg = molgen.make_cut_config(g, block, rng, kinds=kinds, share=share)
+        if cfg is not None:
+            out.append((g, cfg, "random%d" % i))
+    return out
+
+
+def perceived_ok(g):
+    """keep a molecule only if pysmiles' own aromaticity perception of the uncut molecule is stable"""
+    import pysmiles
+    h = g.copy()
+    try:
+        pysmiles.smiles_helper.correct_aromatic_rings(h, strict=True)
+    except Exception:
+        return False
+    for a, b, d in g.edges(data=True):
+        if h.edges[a, b].get("order") != d.get("order"):
+            return False
+    return all(bool(h.nodes[n].get("aromatic", False)) == bool(g.nodes[n].get("aromatic", False)) for n in g.nodes)
+
+
+# ----------------------------------------------------------------------------------------------
+# C11 twin: the same configuration with virtual nodes and zero-order edges removed
+# ----------------------------------------------------------------------------------------------
+def twin_observation(base_tokens, lib_text, lib_names, all_atom, legacy):
+    import networkx as nx
+    from cgsmiles import read_cgsmiles, MoleculeResolver
+    try:
+        with project.quiet():
+            g = read_cgsmiles(render.render_graph_tokens(base_tokens))
+            real = [n for n in sorted(g.nodes) if g.nodes[n]["fragname"] in lib_names]
+            new = {n: i for i, n in enumerate(real)}
+            h = nx.Graph()
+            for n in real:
+                h.add_node(new[n], **g.nodes[n])
+            for a, b, d in g.edges(data=True):
+                if a in new and b in new and d["order"] != 0:
+                    h.add_edge(new[a], new[b], **d)
+            r = MoleculeResolver.from_graph(lib_text, h, last_all_atom=all_atom, legacy=legacy)
+            meta, mol = r.resolve()
+    except Exception as exc:
+        return {"outcome": project.outcome_of(exc), "fine": {"nodes": [], "edges": []}}
+    f = project.project_fine(mol, all_atom)
+    return {"outcome": "ok", "fine": {"nodes": f["nodes"], "edges": f["edges"]}}
+
+
+def has_virtual_or_zero(base_tokens, lib_names):
+    return any(t["k"] == "N" and t["v"] not in lib_names for t in base_tokens) or \
+        any(t["k"] == "B" and t["v"] == "." for t in base_tokens)
+
+
+# ----------------------------------------------------------------------------------------------
+# the checks
+# ----------------------------------------------------------------------------------------------
+CLAUSES = {
+    "C01": ["X_Accepted", "C01_Original"],
+    "C02": ["C02_Records", "C02_Graph", "C02_Cover", "C02_Copy"],
+    "C03": ["C03_Across", "C03_NoBareBond", "C03_CountLE", "C03_CountEQ", "C03_Carried", "C03_Compatible",
+            "C03_Order", "C03_Once"],
+    "C09": ["C09_Complete", "C09_HDegree", "C09_HInherits"],
+    "C10": ["X_Accepted", "C10_NothingElseMerged", "C10_OneFewerPerPair", "C10_SharedBelongsToBoth", "C01_Original"],
+    "C11": ["C11_NoBondOnZero", "C11_VirtualEmpty", "C11_RejectsBondedVirtual", "C11_SameMolecule",
+            "C02_Graph", "C02_Copy", "X_Accepted"],
+    "C12": ["C12_Keys", "C12_Contiguous", "C12_AtomNames"],
+    "C20": ["C20_Raises", "C20_NoGraph"],
+}
+
+
+def judge(check, pid, records, verdicts, nontrivial=None, only=None):
+    clauses = CLAUSES[pid]
+    for rec, v in zip(records, verdicts):
+        check.evaluations += 1
+        if not v.get("dom"):
+            check.skipped += 1
+            continue
+        if only and not only(rec, v):
+            continue
+        check.traces += 1
+        if nontrivial is None or nontrivial(rec, v):
+            check.nontrivial.add(rec["text"] + ("|L" if rec.get("legacy") else "|N"))
+        failed = []
+        for c in clauses:
+            if c in v:
+                check.count_clause(c, bool(v[c]))
+                if v[c] is False:
+                    failed.append(c)
+        if failed:
+            slim = {k: rec[k] for k in ("text", "level", "legacy", "allAtom", "lib", "smi", "nshared") if k in rec}
+            slim["key"] = rec["text"] + "|" + str(rec.get("legacy")) + "|" + str(rec.get("level"))
+            slim["obs"] = {"outcome": rec["obs"]["outcome"]}
+            slim["record_fields"] = {k: rec[k] for k in TRACE_FIELDS if k in rec and k != "obs"}
+            check.violation(failed[0], slim, v)
+        else:
+            check.sample({"text": rec["text"][:200], "legacy": rec.get("legacy"), "outcome": rec["obs"]["outcome"]}, limit=4)
+
+
+def config_records(check, tier, with_twin=False):
+    cfgs = enumerate_configs(check, tier)
+    recs = []
+    for base, lib, legacy in cfgs:
+        r = config_record(base, lib, legacy)
+        if with_twin:
+            names = {f[0] for f in lib["frags"]}
+            if has_virtual_or_zero(base, names) and r["obs"]["outcome"] == "ok":
+                r["twin"] = twin_observation(base, lib["text"], names, not lib["coarse"], legacy)
+        recs.append(r)
+    return recs
+
+
+def repo_records():
+    recs = []
+    for s in repo_full_strings():
+        aa = "[#" not in s.split(".{")[-1]
+        try:
+            recs += records_for_string(s, last_all_atom=aa)
+        except render.Untokenizable:
+            continue
+    return recs
+
+
+def validate_with(check, records, extra=()):
+    slim = [{k: r[k] for k in TRACE_FIELDS + tuple(extra) if k in r} for r in records]
+    verdicts, stats = tlc.validate("ResolveTrace", slim, batch=max(1, min(1500, (len(slim) + common.NCPU - 1) // common.NCPU)),
+                                   xmx="3g", timeout=1800)
+    check.add_tv(stats)
+    return verdicts
+
+
+def _cut_records(check, tier, share, tag):
+    rng = common.rng(tag)
+    corp = cut_corpus(rng, 150 if tier == "quick" else 3000, tier, share=share)
+    recs = []
+    for g, cfg, smi in corp:
+        r = cut_record(g, cfg, legacy=True)   # uniquely labelled pairs need the label-sensitive convention
+        r["smi"] = smi
+        recs.append(r)
+    return recs
+
+
+def run_c01(tier):
+    check = Check("C01", tier=tier)
+    check.rule = ("catalogue (40 molecules: chains, branches, rings, aromatics, charges, S/P, halogens) and seeded random "
+                  "molecules <= 12 heavy atoms x partitions into connected blocks (all partitions for <= 4 atoms) x descriptor "
+                  "kinds ($x/$x, >x/<x, unique labels) x random SMILES renderings (start atom, branch order, ring digits incl. "
+                  "%nn, descriptor before/after ring digits) x base-graph numbering; non-trivial = at least one cut bond")
+    recs = _cut_records(check, tier, 0.0, "c01")
+    verdicts = validate_with(check, recs)
+    judge(check, "C01", recs, verdicts, nontrivial=lambda r, v: r.get("ncuts", 0) > 0)
+    check.extra["cut_configs"] = len(recs)
+    check.assumptions.append("aromatic ring perception is pysmiles' (outside the system under test): reference orders are "
+                             "those pysmiles perceives on the uncut molecule")
+    return check.finish()
+
+
+def run_c10(tier):
+    check = Check("C10", tier=tier)
+    check.rule = ("the C01 corpus with a random subset of the cut bonds replaced by sharing one end atom ('!x' pairs, incl. "
+                  "several per fragment, atoms shared by three fragments, chains, aromatic atoms, atoms that also carry "
+                  "ordinary descriptors); non-trivial = at least one shared atom")
+    recs = _cut_records(check, tier, 0.6, "c10")
+    verdicts = validate_with(check, recs)
+    judge(check, "C10", recs, verdicts, nontrivial=lambda r, v: r.get("nshared", 0) > 0)
+    check.extra["shared_configs"] = sum(1 for r in recs if r.get("nshared", 0) > 0)
+    return check.finish()
+
+
+def _config_check(pid, tier, rule, with_twin=False, extra_records=True, only=None, nontrivial=None):
+    check = Check(pid, tier=tier)
+    check.rule = rule
+    recs = config_records(check, tier, with_twin=with_twin)
+    check.exhaustive = True
+    check.extra["enumerated_configs"] = len(recs)
+    if extra_records:
+        recs += repo_records()
+        recs += _cut_records(check, tier, 0.3, pid.lower())
+    verdicts = validate_with(check, recs, extra=("twin",) if with_twin else ())
+    judge(check, pid, recs, verdicts, only=only, nontrivial=nontrivial)
+    return check, recs, verdicts
+
+
+CFG_RULE = ("every base graph of the bounded grammar (<= {n} nodes over A, B and the fragment-less V; chains, branches, rings; "
+            "orders 0-2) x 15 fragment libraries (unlabelled/labelled/directed/double/surplus/mixed/squash/aromatic/charged/"
+            "annotated/coarse) x both matching conventions, enumerated by TLC (ResolveMC); plus resolver strings found in "
+            "/repo and seeded cut configurations; every resolution step is one trace")
+
+
+def run_c02(tier):
+    check, recs, verdicts = _config_check("C02", tier, CFG_RULE.format(n=3 if tier == "quick" else 4) +
+                                          "; non-trivial = more than one coarse node",
+                                          only=lambda r, v: v.get("checked"),
+                                          nontrivial=lambda r, v: len(r["obs"]["coarse"]["nodes"]) > 1)
+    return check.finish()
+
+
+def run_c03(tier):
+    check, recs, verdicts = _config_check("C03", tier, CFG_RULE.format(n=3 if tier == "quick" else 4) +
+                                          "; non-trivial = at least one inter-fragment bond in the result",
+                                          only=lambda r, v: v.get("checked"),
+                                          nontrivial=lambda r, v: any(e[3] for e in r["obs"]["fine"]["edges"]))
+    check.extra["dedicated_configs"] = sum(1 for v in verdicts if v.get("dedicated"))
+    return check.finish()
+
+
+def run_c09(tier):
+    check, recs, verdicts = _config_check("C09", tier, CFG_RULE.format(n=3 if tier == "quick" else 4) +
+                                          "; only all-atom results are judged; non-trivial = result has a hydrogen",
+                                          only=lambda r, v: v.get("checked") and r["allAtom"],
+                                          nontrivial=lambda r, v: any(n["isH"] for n in r["obs"]["fine"]["nodes"]))
+    try:
+        from . import sampler
+        if hasattr(sampler, "c09_records"):
+            sampler.c09_records(check, tier)
+    except ImportError:
+        pass
+    return check.finish()
+
+
+def run_c11(tier):
+    check, recs, verdicts = _config_check("C11", tier, CFG_RULE.format(n=3 if tier == "quick" else 4) +
+                                          "; each configuration with a virtual node or zero-order edge is paired with its twin "
+                                          "without them (from_graph); non-trivial = has a virtual node or zero-order edge",
+                                          with_twin=True, extra_records=False,
+                                          only=lambda r, v: v.get("hasvirtual") or v.get("haszero") or not v.get("checked"),
+                                          nontrivial=lambda r, v: True)
+    check.extra["twins_compared"] = sum(1 for r in recs if "twin" in r)
+    return check.finish()
+
+
+def run_c12_structural(check, tier):
+    recs = config_records(check, tier)
+    recs += repo_records()
+    recs += _cut_records(check, tier, 0.3, "c12")
+    verdicts = validate_with(check, recs)
+    judge(check, "C12", recs, verdicts, only=lambda r, v: v.get("checked"),
+          nontrivial=lambda r, v: len(r["obs"]["coarse"]["nodes"]) > 1)
+    return recs
+
+
+def run_c20_resolver(check, tier):
+    recs = config_records(check, tier)
+    verdicts = validate_with(check, recs)
+    judge(check, "C20", recs, verdicts, only=lambda r, v: v.get("expected") != "ok",
+          nontrivial=lambda r, v: True)
+    check.extra["resolver_fault_configs"] = sum(1 for v in verdicts if v.get("dom") and v.get("expected") != "ok")
